@@ -569,6 +569,18 @@ def astype(o, t):
         return SArr(o.shape, lambda idx: el(o.get(idx)))
     return el(o)
 
+def swapaxes(o, i, j):
+    """numpy/jax swapaxes: result[..., a_i, ..., a_j, ...] = o[..., a_j, ..., a_i, ...] (a view with the two axes exchanged; the vector/flat structure is dropped)"""
+    i, j = _ci(i), _ci(j); n = o.ndim; i, j = i % n, j % n
+    sh = list(o.shape); sh[i], sh[j] = sh[j], sh[i]
+    def get(idx):
+        idx = list(idx); idx[i], idx[j] = idx[j], idx[i]; return o.get(tuple(idx))
+    r = SArr(tuple(sh), get)
+    if o.vec is not None and i != n - 1 and j != n - 1:
+        def vec(lidx):
+            lidx = list(lidx); lidx[i], lidx[j] = lidx[j], lidx[i]; return o.vec(tuple(lidx))
+        r.vec = vec
+    return r
 # ---------------------------------------------------------------- attribute access on values
 def value_getattr(interp, o, a):
     B = _Builtin()
@@ -581,6 +593,8 @@ def value_getattr(interp, o, a):
         if a == "clip": return B(lambda lo=None, hi=None: clip(o, lo, hi))
         if a == "astype": return B(lambda t: astype(o, t))
         if a == "copy": return B(lambda: o)
+        if a == "swapaxes": return B(lambda i, j: swapaxes(o, i, j))
+        if a == "T" and o.ndim == 2: return swapaxes(o, 0, 1)
         if a == "sum": return B(lambda axis=None: asum(o, axis))
         if a == "max": return B(lambda axis=None: amax(o, axis))
         if a == "min": return B(lambda axis=None: amin(o, axis))
